@@ -83,7 +83,7 @@ def populate(rng, L, steps, n=None, names=None, allow_invalid=False, now=None, o
 
 
 MALFORMED = ['nonsuffix', 'empty', 'truncated', 'binary', 'nonutf8', 'nopath', 'nodate', 'baddate',
-             'nopayload', 'orphan', 'dir_in_info', 'infodir_named_trashinfo', 'only_header', 'crlf']
+             'nopayload', 'orphan', 'dir_in_info', 'infodir_named_trashinfo', 'only_header', 'crlf', 'offsetdate']
 
 
 def add_malformed(rng, steps, tdir, kind, tag, path_value=None):
@@ -116,6 +116,12 @@ def add_malformed(rng, steps, tdir, kind, tag, path_value=None):
     elif kind == 'baddate':
         steps.append(['f', ip, '[Trash Info]\nPath=%s\nDeletionDate=%s\n' % (
             path_value or '/home/u/w/' + nm, rng.choice(['yesterday', '2020-13-45T99:00:00', '2020-01-01', '2020-01-01 00:00:00', ''])), 0o600])
+        steps.append(['f', fp, 'p', 0o644])
+    elif kind == 'offsetdate':
+        # a date some other writers produce: with a UTC offset / fraction / Z - not the spec format
+        steps.append(['f', ip, '[Trash Info]\nPath=%s\nDeletionDate=%s\n' % (
+            path_value or '/home/u/w/' + nm, rng.choice(['2003-03-03T10:00:00+01:00', '2003-03-03T10:00:00Z', '2003-03-03T10:00:00.123456',
+                                                         '2003-03-03T10:00:00+0100', '2003-03-03T10:00:00 +01:00'])), 0o600])
         steps.append(['f', fp, 'p', 0o644])
     elif kind == 'nopayload':
         steps.append(['f', ip, '[Trash Info]\nPath=/home/u/w/%s\nDeletionDate=2020-01-01T00:00:00\n' % nm, 0o600])
